@@ -24,6 +24,7 @@ Inductive sync_class : Type :=
 | K_found_not_replaced       (* REPLACE fails: FunctionDef targets are never replaced *)
 | K_not_found_but_present    (* FIND fails on a target: the definition exists but is not found; a copy is appended *)
 | K_dotted_written_top_level (* a method target that is created/appended lands at module level, so FIX fails *)
+| K_other_docstring_reformatted (* a whole-module rewrite formats the file with black, which re-indents the docstrings of the OTHER definitions: their docstring constants change *)
 | K_module_docstring_reindented (* RENDER_PARSE fails on the module docstring: ast_parse re-indents it on read, so a whole-module rewrite changes that statement *)
 | K_written_compares_unequal. (* FIX fails: what sync wrote is found but never compares equal (docstring re-indent) *)
 
@@ -34,14 +35,16 @@ Definition sync_class_name (k : sync_class) : str :=
   | K_not_found_but_present => L "present-definition-not-found"
   | K_dotted_written_top_level => L "method-target-written-at-module-level"
   | K_module_docstring_reindented => L "module-docstring-reindented"
+  | K_other_docstring_reformatted => L "other-docstring-reformatted"
   | K_written_compares_unequal => L "written-definition-compares-unequal"
   end.
 
 (* C11: a difference confined to the module docstring statement of a file rewritten as a whole is the
    RENDER_PARSE law failing on docstrings; any other difference is attributed to the target's class *)
-Definition classify_frame (only_module_docstring_differs whole_module_rewrite : bool)
+Definition classify_frame (only_module_docstring_differs only_docstrings_differ whole_module_rewrite : bool)
            (target_class : option sync_class) : option sync_class :=
   if only_module_docstring_differs && whole_module_rewrite then Some K_module_docstring_reindented
+  else if only_docstrings_differ && whole_module_rewrite then Some K_other_docstring_reformatted
   else target_class.
 
 (* what can go wrong when the target is installed (first run): only the call of run 0 matters *)
@@ -59,7 +62,9 @@ Definition classify_repeat (dotted : bool) (c0 : call_obs) (c1 : option call_obs
     match c1 with
     | Some c =>
       if ob_found c && negb (ob_cmp c) then
-        (if ob_replaced c then Some K_written_compares_unequal else None)
+        (* since the comparison goes through the written form (_as_written) only a class nested in another
+           class still compares unequal to its re-emission *)
+        (if ob_replaced c && dotted then Some K_written_compares_unequal else None)
       else if negb (ob_found c) then
         (if dotted then Some K_dotted_written_top_level else Some K_not_found_but_present)
       else None
@@ -108,12 +113,12 @@ Definition run_syncspec (fn : sexp) (args : list sexp) : option sexp :=
     end
   else if is_sym "frame_class" fn then
     match args with
-    | [od; wm; d; c0; c1] =>
-      match dec_bool od, dec_bool wm, dec_bool d, dec_obs c0, dec_option dec_obs c1 with
-      | Some od, Some wm, Some d, Some c0, Some c1 =>
+    | [od; ods; wm; d; c0; c1] =>
+      match dec_bool od, dec_bool ods, dec_bool wm, dec_bool d, dec_obs c0, dec_option dec_obs c1 with
+      | Some od, Some ods, Some wm, Some d, Some c0, Some c1 =>
         Some (enc_option (fun k => enc_str (sync_class_name k))
-                         (classify_frame od wm (classify_target d c0 c1)))
-      | _, _, _, _, _ => None
+                         (classify_frame od ods wm (classify_target d c0 c1)))
+      | _, _, _, _, _, _ => None
       end
     | _ => None
     end
